@@ -195,6 +195,74 @@ Definition c19_counts : list (string * N * N * N) :=
                 | None => (f, 0, 0, 0)%N
                 end) c19_functions.
 
+(* ---- which (function, class) pairs the statement of C19 says HAVE a structural rule (property text: inv, solve,
+   logdet, diag, trace, matrix functions, cholesky, plu on Kronecker, block-diagonal, diagonal, identity and scalar
+   operators and their products; exp on Kronecker sums).  Hand-written expectation; the sweep shows that the
+   regenerated table still provides them, so deleting a structural rule breaks this proof instead of silently
+   shrinking the scope of structural_rule_selected. ---- *)
+Definition expected_structural : list (string * list string) :=
+  [("inv",      ["Kronecker"; "BlockDiag"; "Diagonal"; "Identity"; "ScalarMul"; "Product"; "Permutation"]);
+   ("slogdet",  ["Kronecker"; "BlockDiag"; "Diagonal"; "Identity"; "ScalarMul"; "Product"; "Permutation"]);
+   ("diag",     ["Kronecker"; "KronSum"; "BlockDiag"; "Diagonal"; "Identity"; "ScalarMul"; "Sum"]);
+   ("trace",    ["Kronecker"; "KronSum"; "BlockDiag"; "Diagonal"; "Identity"; "ScalarMul"; "Sum"]);
+   ("exp",      ["KronSum"; "BlockDiag"; "Diagonal"; "Identity"; "ScalarMul"]);
+   ("log",      ["BlockDiag"; "Diagonal"; "Identity"; "ScalarMul"]);
+   ("sqrt",     ["Kronecker"; "BlockDiag"; "Diagonal"; "Identity"; "ScalarMul"]);
+   ("isqrt",    ["Kronecker"; "BlockDiag"; "Diagonal"; "Identity"; "ScalarMul"]);
+   ("pow",      ["Kronecker"; "BlockDiag"; "Diagonal"; "Identity"; "ScalarMul"]);
+   ("cholesky", ["Kronecker"; "BlockDiag"; "Diagonal"; "Identity"; "ScalarMul"]);
+   ("plu",      ["Kronecker"; "BlockDiag"; "Diagonal"; "Identity"; "ScalarMul"])].
+
+Definition expected_for (f : string) : list string :=
+  match find (fun p => String.eqb (fst p) f) expected_structural with Some p => snd p | None => [] end.
+
+Definition expected_ok (f : string) (c : list positive * list aform) : bool :=
+  let A := nth (oppos f) (fst c) xH in
+  if existsb (Pos.eqb A) ops_structured_square && existsb (String.eqb (cls A)) (expected_for f)
+  then snd (final 4 f (fst c) (snd c)) else true.
+
+Definition expected_sweep_on (fl : list string) : bool :=
+  forallb (fun f => match spec_of f with
+                    | Some fs => forallb (expected_ok f) (calls (restrict fs))
+                    | None => false
+                    end) fl.
+
+Lemma expected_sweep_sound : forall fl, expected_sweep_on fl = true ->
+  forall f fs, In f fl -> spec_of f = Some fs ->
+  forall c, In c (calls (restrict fs)) -> expected_ok f c = true.
+Proof.
+  intros fl H f fs Hf Hs c Hc. unfold expected_sweep_on in H. rewrite forallb_forall in H.
+  specialize (H f Hf). rewrite Hs in H. rewrite forallb_forall in H. exact (H c Hc).
+Qed.
+
+Lemma expected_ok_spec : forall f req opt, expected_ok f (req, opt) = true ->
+  In (nth (oppos f) req xH) ops_structured_square ->
+  In (cls (nth (oppos f) req xH)) (expected_for f) ->
+  snd (final 4 f req opt) = true.
+Proof.
+  intros f req opt H HA Hc. unfold expected_ok in H. cbn [fst snd] in H.
+  assert (E1 : existsb (Pos.eqb (nth (oppos f) req xH)) ops_structured_square = true).
+  { apply existsb_exists. exists (nth (oppos f) req xH). split; [exact HA | apply Pos.eqb_refl]. }
+  assert (E2 : existsb (String.eqb (cls (nth (oppos f) req xH))) (expected_for f) = true).
+  { apply existsb_exists. exists (cls (nth (oppos f) req xH)). split; [exact Hc | apply String.eqb_refl]. }
+  rewrite E1, E2 in H. exact H.
+Qed.
+
+Lemma expected_sweep_true : expected_sweep_on c19_functions = true.
+Proof. vm_compute. reflexivity. Qed.
+
+Theorem expected_structural_rules_exist :
+  forall f fs, In f c19_functions -> spec_of f = Some fs ->
+  forall req opt, admissible (restrict fs) req opt ->
+    In (nth (oppos f) req xH) ops_structured_square ->
+    In (cls (nth (oppos f) req xH)) (expected_for f) ->
+    snd (final 4 f req opt) = true.
+Proof.
+  intros f fs Hf Hs req opt Hadm. apply expected_ok_spec.
+  exact (expected_sweep_sound c19_functions expected_sweep_true f fs Hf Hs (req, opt)
+           (proj2 (lattice_complete (restrict fs) req opt) Hadm)).
+Qed.
+
 (* ------------------------------------------------------------------------------------------------------------
    Frozen witnesses of the two "requires an explicit algorithm" flags on the pinned tree (hand-copied fragments,
    independent of the regenerated table): unary.py:228-246 registers
